@@ -11,7 +11,8 @@
 (*   Release2(c)   a second call of the same done function (no effect)     *)
 (* Entries are numbered: a forgotten address gets a fresh entry on the     *)
 (* next request.  Mutant: "none", "ref_after_ready" (count the reference   *)
-(* only once the outcome is read), "no_once" (a second done decrements).   *)
+(* only once the outcome is read), "no_once" (a second done decrements),  *)
+(* "bad_dialer_lingers" (a failure for want of a dialer is not forgotten). *)
 (***************************************************************************)
 EXTENDS Naturals, FiniteSets, TLC
 
@@ -51,10 +52,14 @@ Acquire(c, a) ==
             /\ UNCHANGED <<cur, nent>>
     /\ pc' = [pc EXCEPT ![c] = "wait"]
 
+(* a request may name a dialer the manager does not have: that "dial" fails at once, like any other  *)
+(* (mutant "bad_dialer_lingers": it returns before the entry is forgotten)                           *)
 DialEnd(e, ok) ==
     /\ e \in DOMAIN ent /\ ent[e].dialing
     /\ ent' = [ent EXCEPT ![e] = [@ EXCEPT !.dialing = FALSE, !.ready = TRUE, !.ok = ok]]
-    /\ cur' = IF ok THEN cur ELSE [cur EXCEPT ![ent[e].addr] = IF @ = e THEN 0 ELSE @]
+    /\ \E badDialer \in BOOLEAN :
+          cur' = IF ok \/ (badDialer /\ Mutant = "bad_dialer_lingers") THEN cur
+                 ELSE [cur EXCEPT ![ent[e].addr] = IF @ = e THEN 0 ELSE @]
     /\ UNCHANGED <<nent, pc, addrOf, got>>
 
 Read(c) ==
